@@ -52,20 +52,35 @@ def r01_1(ctx, rr):
     F = ctx.F()
     wrapper_sites(ctx, rr, r"^traits::rank_sel::Rank::rank$", "RankUnchecked::rank_unchecked")
     b = F.one(r"^traits::rank_sel::Rank::rank$")
-    T = Termizer(F, b)
-    # the other exit returns num_ones()
-    top = b.body
-    ifs = [n for n in walk(top) if n.get("k") == "If"]
+    # the other exit returns num_ones() (as the tail of a branch or through an early return)
     ok = False
-    for n in ifs:
-        for br in (n["th"], n.get("el")):
-            if br is None:
-                continue
-            t = T.term(br)
-            if t[0] == "call" and t[1] == "NumBits::num_ones":
-                ok = True
+
+    def on_exit(W, n, K):
+        nonlocal ok
+        if cname(F, n) == "NumBits::num_ones" and W.debug_depth == 0:
+            ps = pm.get(id(n), ())
+            # in return position: every ancestor up to the body is a block tail, a branch of an if, or a `return`
+            child = n
+            good = True
+            for p in reversed(ps):
+                k = p.get("k")
+                if k == "Ret":
+                    break
+                if k == "Block" and p.get("expr") is child:
+                    child = p
+                    continue
+                if k == "If" and (p["th"] is child or p.get("el") is child):
+                    child = p
+                    continue
+                if k in ("LetStmt",) or (k == "Block" and p.get("expr") is not child):
+                    good = False
+                    break
+                child = p
+            ok = ok or good
+    pm = {id(n): ps for n, ps in walk_with_parents(b.body)}
+    Walker(F, b, on_node=on_exit).run()
     rr.instances += 1
-    rr.check(ok, "Rank::rank:other-exit", "Rank::rank: the branch not calling rank_unchecked must return self.num_ones()", b.span)
+    rr.check(ok, "Rank::rank:other-exit", "Rank::rank: the exit not calling rank_unchecked must return self.num_ones()", b.span)
     # rank_zero(pos) == pos - rank(pos)
     b = F.one(r"^traits::rank_sel::RankZero::rank_zero$")
     t = Termizer(F, b).term(b.body)
@@ -576,6 +591,12 @@ def r12_4(ctx, rr):
     def run(path, exit_kind, reasons_fn, min_exits=1):
         b = F.one(path)
         P = {p["name"]: ("var", p["name"], p["id"]) for p in b.params if p.get("k") == "PBind"}
+        # parameters by position (`self` apart): the rules below never rely on what a parameter is called
+        k_ = 0
+        for p in b.params:
+            if p.get("k") == "PBind" and p["name"] != "self":
+                k_ += 1
+                P["#%d" % k_] = ("var", p["name"], p["id"])
         reasons = reasons_fn(P)
 
         def is_exit(W, n):
@@ -603,29 +624,29 @@ def r12_4(ctx, rr):
     def lens(r):
         return len_candidates(r)
 
-    run(r"^traits::rank_sel::Rank::rank$", "call:NumBits::num_ones", lambda P: [("any", [atom_le(L, P["pos"]) for L in lens(P["self"])])])
-    run(r"^traits::rank_sel::Select::select$", "none", lambda P: [atom_le(("call", "NumBits::num_ones", (P["self"],)), P["rank"])])
-    run(r"^traits::rank_sel::SelectZero::select_zero$", "none", lambda P: [atom_le(("call", "NumBits::num_zeros", (P["self"],)), P["rank"])])
-    run(r"^traits::indexed_dict::IndexedSeq::get$", "panic", lambda P: [("any", [atom_le(L, P["index"]) for L in lens(P["self"])])])
-    run(r"^traits::bit_field_slice::BitFieldSlice::get$", "panic", lambda P: [("any", [atom_le(L, P["index"]) for L in lens(P["self"])])])
-    run(r"^traits::bit_field_slice::AtomicBitFieldSlice::get_atomic$", "panic", lambda P: [("any", [atom_le(L, P["index"]) for L in lens(P["self"])])])
+    run(r"^traits::rank_sel::Rank::rank$", "call:NumBits::num_ones", lambda P: [("any", [atom_le(L, P["#1"]) for L in lens(P["self"])])])
+    run(r"^traits::rank_sel::Select::select$", "none", lambda P: [atom_le(("call", "NumBits::num_ones", (P["self"],)), P["#1"])])
+    run(r"^traits::rank_sel::SelectZero::select_zero$", "none", lambda P: [atom_le(("call", "NumBits::num_zeros", (P["self"],)), P["#1"])])
+    run(r"^traits::indexed_dict::IndexedSeq::get$", "panic", lambda P: [("any", [atom_le(L, P["#1"]) for L in lens(P["self"])])])
+    run(r"^traits::bit_field_slice::BitFieldSlice::get$", "panic", lambda P: [("any", [atom_le(L, P["#1"]) for L in lens(P["self"])])])
+    run(r"^traits::bit_field_slice::AtomicBitFieldSlice::get_atomic$", "panic", lambda P: [("any", [atom_le(L, P["#1"]) for L in lens(P["self"])])])
     for path in (r"^bits::bit_vec::BitVec::<B>::get$", r"^bits::bit_vec::BitVec::<B>::set$", r"^bits::bit_vec::AtomicBitVec::<B>::get$", r"^bits::bit_vec::AtomicBitVec::<B>::set$", r"^bits::bit_vec::AtomicBitVec::<B>::swap$"):
-        run(path, "panic", lambda P: [("any", [atom_le(L, P["index"]) for L in lens(P["self"])])])
+        run(path, "panic", lambda P: [("any", [atom_le(L, P["#1"]) for L in lens(P["self"])])])
 
     def set_reasons(P):
-        out = [("any", [atom_le(L, P["index"]) for L in lens(P["self"])])]
-        out.append(("valuefit", P["value"]))
+        out = [("any", [atom_le(L, P["#1"]) for L in lens(P["self"])])]
+        out.append(("valuefit", P["#2"]))
         return out
     for path in (r"^traits::bit_field_slice::BitFieldSliceMut::set$", r"^traits::bit_field_slice::AtomicBitFieldSlice::set_atomic$",
                  r"^<bits::bit_field_vec::BitFieldVec<W, B> as traits::bit_field_slice::BitFieldSliceMut<W>>::set$",
                  r"^<bits::bit_field_vec::AtomicBitFieldVec<W, T> as traits::bit_field_slice::AtomicBitFieldSlice<W>>::set_atomic$"):
         run(path, "panic", set_reasons, min_exits=1)
-    run(r"^bits::bit_field_vec::BitFieldVec::<W>::push$", "panic", lambda P: [("valuefit", P["value"])])
-    run(r"^bits::bit_field_vec::BitFieldVec::<W>::resize$", "panic", lambda P: [("valuefit", P["value"])])
+    run(r"^bits::bit_field_vec::BitFieldVec::<W>::push$", "panic", lambda P: [("valuefit", P["#1"])])
+    run(r"^bits::bit_field_vec::BitFieldVec::<W>::resize$", "panic", lambda P: [("valuefit", P["#2"])])
     run(r"^dict::elias_fano::EliasFanoBuilder::push$", "panic", lambda P: [
         atom_le(("field", P["self"], "n"), ("field", P["self"], "count")),
-        atom_le(("field", P["self"], "u"), P["value"], True),
-        atom_le(P["value"], ("field", P["self"], "last_value"), True)], min_exits=1)
+        atom_le(("field", P["self"], "u"), P["#1"], True),
+        atom_le(P["#1"], ("field", P["self"], "last_value"), True)], min_exits=1)
     # from_slice: rejects only sources that really do not fit the word
     fs = F.one(r"^bits::bit_field_vec::BitFieldVec::<W>::from_slice$")
     errs = []
@@ -650,33 +671,20 @@ def r12_4(ctx, rr):
                 val = t
         return [("some-var-above", "u"), ("scan-exhausted", None), ("scanned-past", None)]
     run(r"^<dict::elias_fano::EliasFano<H, L> as traits::indexed_dict::IndexedDict>::index_of$", "none", index_of_reasons, min_exits=3)
-    # Succ / Pred: the rejecting condition is exactly `is_empty() || value OP boundary element`
+    # Succ / Pred: None is returned only when the structure is empty or the value lies beyond the boundary
+    # element (whatever the shape of the tests: one `||`, two early returns, ...)
     for path, op_strict, last in ((r"^traits::indexed_dict::Succ::succ$", True, True), (r"^traits::indexed_dict::Succ::succ_strict$", False, True),
                                   (r"^traits::indexed_dict::Pred::pred$", True, False), (r"^traits::indexed_dict::Pred::pred_strict$", False, False)):
-        b = F.one(path)
-        T = Termizer(F, b)
-        s = ("var", "self", b.params[0]["id"])
-        v = ("var", b.params[1]["name"], b.params[1]["id"])
-        ifs = [n for n in walk(b.body) if n.get("k") == "If"]
-        ok = False
-        found = "no `if is_empty() || ...` test"
-        for n in ifs:
-            c = n["c"]
-            if c.get("k") == "Binary" and c["op"] == "||":
-                la = cond_atoms(T, c["l"], True)
-                ra = cond_atoms(T, c["r"], True)
-                if last:
-                    bound = ("call", "IndexedSeq::get", (s, mk_op("-", ("call", "IndexedSeq::len", (s,)), ("int", 1))))
-                    want = [atom_le(bound, v, op_strict)]
-                else:
-                    bound = ("call", "IndexedSeq::get", (s, ("int", 0)))
-                    want = [atom_le(v, bound, op_strict)]
-                found = "%s || %s" % ([ashow(a) for a in la], [ashow(a) for a in ra])
-                if la == [("b", ("call", "IndexedSeq::is_empty", (s,)), True)] and ra == want:
-                    ok = True
-        rr.instances += 1
-        rr.check(ok, "%s:rejects-only-out-of-domain" % short_fn(b.key), "%s must return None exactly when the structure is empty or the value is %s the %s element; found %s" % (
-            b.key, ("above" if last else "below") + ("" if op_strict else " or equal to"), "last" if last else "first", found), b.span)
+        def sp_reasons(P, op_strict=op_strict, last=last):
+            s_, v_ = P["self"], P["#1"]
+            if last:
+                bound = ("call", "IndexedSeq::get", (s_, mk_op("-", ("call", "IndexedSeq::len", (s_,)), ("int", 1))))
+                dom = atom_le(bound, v_, op_strict)
+            else:
+                bound = ("call", "IndexedSeq::get", (s_, ("int", 0)))
+                dom = atom_le(v_, bound, op_strict)
+            return [("b", ("call", "IndexedSeq::is_empty", (s_,)), True), dom]
+        run(path, "none", sp_reasons, min_exits=1)
 
 
 _old_goal_holds = goal_holds
